@@ -12,6 +12,11 @@
      malformed arrays, NaN/inf, wrong types, None) on FRESH objects in its OWN child process; a crash, abort
      or timeout of the child, a model that changed although the call raised, or a model that cannot be read
      back afterwards is a violation.
+(iii) systematic sweeps in batches (a crash re-runs the batch one call per process): every DQM mutator / getter, and
+     (`c20_sweep.py`) every BQM / QM mutator x every argument position x every class of malformed argument on fresh
+     float64 / float32 / object / range-labelled / empty models and views, incl. dense matrices and arrays LARGER than
+     the model with invalid content: a rejected call leaves the full observable state (labels, coefficients through
+     three read paths, counts, native size, the base model of a view) unchanged.
 """
 import json
 import os
@@ -24,7 +29,7 @@ from concurrent.futures import ThreadPoolExecutor
 from fractions import Fraction as F
 
 from harness.common import VERIF, rat, run_driver
-from harness.props import c20_cpp
+from harness.props import c20_cpp, c20_sweep
 
 PY = '/venv/bin/python'
 
@@ -76,7 +81,7 @@ def finite(st):
 
 
 REPLAY_SRC = '''import os, sys, dimod
-from harness.props import c20_cpp
+from harness.props import c20_cpp, c20_sweep
 inc = os.path.join(os.path.dirname(dimod.__file__), 'include')
 exe = c20_cpp.build(inc, os.path.join(os.environ.get('VERIF_SCRATCH', '/var/tmp/dimod-verif'), 'c20-cache'))
 ops = %r
@@ -345,7 +350,11 @@ def run_child(src, env):
     try:
         p = subprocess.run([PY, '-c', src], capture_output=True, text=True, timeout=60, env=env)
     except subprocess.TimeoutExpired:
-        return dict(result='timeout')
+        # on a loaded machine the import alone can take that long: a real hang is still one after five more minutes
+        try:
+            p = subprocess.run([PY, '-c', src], capture_output=True, text=True, timeout=300, env=env)
+        except subprocess.TimeoutExpired:
+            return dict(result='timeout')
     if p.returncode != 0:
         return dict(result='crash', rc=p.returncode, stderr=p.stderr[-800:])
     try:
@@ -366,10 +375,12 @@ def boundary_part(ctx):
             (first if (c[0], c[1]) not in seen else rest).append(c)
             seen.add((c[0], c[1]))
         r.shuffle(rest)
-        cases = first + rest[:max(0, 260 - len(first))]
+        # (the BQM / QM classes of this list are all part of the batched sweep `c20_sweep`, every run; the isolated one-call-
+        #  per-process form is kept for every site once plus a random sample, which bounds the quick tier's process count)
+        cases = first + rest[:max(0, 170 - len(first))]
     env = dict(os.environ)
     srcs = [child_source(k, call) for k, _, _, call in cases]
-    with ThreadPoolExecutor(max_workers=4) as ex:
+    with ThreadPoolExecutor(max_workers=6) as ex:
         results = list(ex.map(lambda s: run_child(s, env), srcs))
     for (kind, site, cls, call), src, res in zip(cases, srcs, results):
         ctx.case(('boundary', kind, call), nontrivial=res['result'] != 'setup',
@@ -562,3 +573,4 @@ def run(ctx):
     cpp_part(ctx)
     boundary_part(ctx)
     dqm_sweep_part(ctx)
+    c20_sweep.sweep_part(ctx)
